@@ -310,6 +310,33 @@ var templates = map[string]func(n, m int) string{
 		b.WriteString("\n")
 		return b.String()
 	},
+	// one assignment with n targets (m%3: globals, fields of a local table, upvalues/locals mix) fed by one call, by ... or
+	// by n constants (m/3%3)
+	"many_targets": func(n, m int) string {
+		if n < 1 {
+			n = 1
+		}
+		var ts, vs []string
+		for i := 0; i < n; i++ {
+			switch m % 3 {
+			case 0:
+				ts = append(ts, fmt.Sprintf("g%d", i))
+			case 1:
+				ts = append(ts, fmt.Sprintf("t.f%d", i))
+			default:
+				ts = append(ts, []string{fmt.Sprintf("g%d", i), fmt.Sprintf("t[%d]", i), "up", "loc"}[i%4])
+			}
+			vs = append(vs, fmt.Sprint(i))
+		}
+		src := "f()"
+		switch m / 3 % 3 {
+		case 1:
+			src = "..."
+		case 2:
+			src = strings.Join(vs, ", ")
+		}
+		return "local up, t = 0, {}\nlocal function f() return 1, 2, 3 end\nreturn function(...)\nlocal loc\n" + strings.Join(ts, ", ") + " = " + src + "\nreturn up, loc\nend\n"
+	},
 	// generic for with n loop variables and a body that needs no register above them (m selects the body)
 	"genfor_vars": func(n, m int) string {
 		if n < 1 {
@@ -383,6 +410,7 @@ var grids = []grid{
 	{"nesting", []int{1, 2, 10, 50, 100, 150, 190, 195, 199, 200, 201, 220}, []int{0, 1, 2, 3}, false},
 	{"long_body", []int{1, 10, 1000, 131060, 131066, 131067, 131068, 131069, 131070, 131071, 131072, 131073, 131074, 131075, 131080, 140000, 262150}, []int{0, 1, 2, 3, 4, 5}, true},
 	{"chains", []int{1, 2, 50, 100, 199, 200, 201, 255, 256, 300, 1000}, []int{0, 1, 2, 3}, false},
+	{"many_targets", []int{1, 2, 3, 100, 198, 199, 200, 201, 202, 254, 255, 256, 257, 508, 509, 510, 511, 512, 513, 600, 767, 768, 769, 1023, 1024, 1025}, []int{0, 1, 2, 3, 4, 5, 6, 7, 8}, false},
 	{"genfor_vars", []int{1, 2, 3, 4, 5, 6, 7, 10, 50, 150, 190, 196}, []int{0, 1, 2, 3, 4, 5}, false},
 	{"bare_functions", []int{0, 1, 2, 3, 4, 5, 10, 100, 199, 200}, []int{0, 1, 2, 3, 4, 5, 6, 7, 8, 9, 10, 11}, false},
 	{"upvalues", []int{1, 30, 59, 60, 61, 84, 85, 86, 100, 127, 128, 129, 150, 190}, []int{0, 1, 2}, false},
